@@ -104,11 +104,14 @@ SparseMatrixCSR<T>::SparseMatrixCSR(const SparseMatrixCSR& other)
     , nnz_(other.nnz_)
     , values_(std::make_unique<T[]>(nnz_))
     , column_indices_(std::make_unique<int[]>(nnz_))
-    , row_start_indices_(std::make_unique<int[]>(rows_ + 1))
+    , row_start_indices_(other.row_start_indices_ ? std::make_unique<int[]>(rows_ + 1) : nullptr)
 {
     std::copy(other.values_.get(), other.values_.get() + nnz_, values_.get());
     std::copy(other.column_indices_.get(), other.column_indices_.get() + nnz_, column_indices_.get());
-    std::copy(other.row_start_indices_.get(), other.row_start_indices_.get() + rows_ + 1, row_start_indices_.get());
+    // A default-constructed or moved-from matrix has no row start array.
+    if (other.row_start_indices_)
+        std::copy(other.row_start_indices_.get(), other.row_start_indices_.get() + rows_ + 1,
+                  row_start_indices_.get());
 }
 
 // copy assignment
@@ -120,10 +123,10 @@ SparseMatrixCSR<T>& SparseMatrixCSR<T>::operator=(const SparseMatrixCSR& other)
         return *this;
     }
     // Only allocate new memory if the sizes are different
-    if (nnz_ != other.nnz_ || rows_ != other.rows_) {
+    if (nnz_ != other.nnz_ || rows_ != other.rows_ || !row_start_indices_ != !other.row_start_indices_) {
         values_            = std::make_unique<T[]>(other.nnz_);
         column_indices_    = std::make_unique<int[]>(other.nnz_);
-        row_start_indices_ = std::make_unique<int[]>(other.rows_ + 1);
+        row_start_indices_ = other.row_start_indices_ ? std::make_unique<int[]>(other.rows_ + 1) : nullptr;
     }
     // Copy the elements
     rows_    = other.rows_;
@@ -131,7 +134,10 @@ SparseMatrixCSR<T>& SparseMatrixCSR<T>::operator=(const SparseMatrixCSR& other)
     nnz_     = other.nnz_;
     std::copy(other.values_.get(), other.values_.get() + nnz_, values_.get());
     std::copy(other.column_indices_.get(), other.column_indices_.get() + nnz_, column_indices_.get());
-    std::copy(other.row_start_indices_.get(), other.row_start_indices_.get() + rows_ + 1, row_start_indices_.get());
+    // A default-constructed or moved-from matrix has no row start array.
+    if (other.row_start_indices_)
+        std::copy(other.row_start_indices_.get(), other.row_start_indices_.get() + rows_ + 1,
+                  row_start_indices_.get());
     return *this;
 }
 
